@@ -190,7 +190,7 @@ func TestC17Manager(t *testing.T) {
 
 		nOps := rapid.IntRange(8, 24).Draw(t, "nops")
 		for i := 0; i < nOps; i++ {
-			op := rapid.SampledFrom([]string{"enc", "dec", "dec", "dec", "dec", "tamper", "tamper", "lock", "unlock", "unlock-wrong", "reopen"}).Draw(t, "op")
+			op := rapid.SampledFrom([]string{"enc", "dec", "dec", "dec", "dec", "tamper", "tamper", "lock", "unlock", "unlock", "unlock-wrong", "reopen", "change-pub", "change-priv", "unlock-with-public"}).Draw(t, "op")
 			switch op {
 			case "enc":
 				kt := rapid.SampledFrom(keyTypes).Draw(t, "kt")
@@ -262,6 +262,48 @@ func TestC17Manager(t *testing.T) {
 						c.Class("cross-with-script-OPENED")
 					}
 				}
+
+			case "change-pub", "change-priv":
+				// the keys stay bound to the right passphrases across passphrase changes
+				private := op == "change-priv"
+				old := pubPass
+				prefix := "pub-"
+				if private {
+					old, prefix = privPass, "priv-"
+				}
+				np := []byte(prefix + rapid.StringMatching(`[a-zA-Z0-9]{4,12}`).Draw(t, "newPass"))
+				err := walletdb.Update(mgrDB, func(tx walletdb.ReadWriteTx) error {
+					return mgr.ChangePassphrase(tx.ReadWriteBucket(nsKey), old, np, private, &waddrmgr.FastScryptOptions)
+				})
+				c.Logf("%s -> %q (locked=%v): %v", op, np, locked, err)
+				if err != nil {
+					fail("ChangePassphrase(private=%v) with the right old passphrase failed: %v", private, err)
+				}
+				if private {
+					privPass = np
+				} else {
+					pubPass = np
+				}
+				if mgr.IsLocked() != locked {
+					fail("ChangePassphrase changed the lock state to locked=%v", mgr.IsLocked())
+				}
+				c.Class("passphrase-changed")
+
+			case "unlock-with-public":
+				// the public passphrase is not the private one: it must never unlock
+				err := unlock(pubPass)
+				c.Logf("unlock with the PUBLIC passphrase (locked=%v) -> %v", locked, err)
+				if err == nil {
+					fail("Unlock accepted the public passphrase %q (private is %q)", pubPass, privPass)
+				}
+				if !mgr.IsLocked() {
+					fail("manager is not locked after a failed Unlock")
+				}
+				if !locked {
+					epoch++
+				}
+				locked = true
+				c.Class("unlock-with-public-refused")
 
 			case "lock":
 				c.Logf("lock (locked=%v)", locked)
